@@ -89,8 +89,10 @@ type sessStream struct {
 
 func (s *sessStream) holdSends() {
 	s.mtx.Lock()
-	s.hold = make(chan struct{})
-	s.inSend = make(chan struct{})
+	if s.hold == nil { // a Send may be parked on the current gate: never replace it
+		s.hold = make(chan struct{})
+		s.inSend = make(chan struct{})
+	}
 	s.mtx.Unlock()
 }
 
@@ -165,8 +167,10 @@ type listenStream struct {
 // holdSends makes the next Send calls block until release is called.
 func (s *listenStream) holdSends() {
 	s.mtx.Lock()
-	s.hold = make(chan struct{})
-	s.inSend = make(chan struct{})
+	if s.hold == nil { // a Send may be parked on the current gate: never replace it
+		s.hold = make(chan struct{})
+		s.inSend = make(chan struct{})
+	}
 	s.mtx.Unlock()
 }
 
